@@ -490,4 +490,308 @@ theorem start_independent (B : Backend) (A : ℚ) (rv sg : Bool) (vs : List Vert
     | [v], _ => simp
     | _ :: _ :: _, h => simp at h
 
+/-! ### traversal order, cutting along a diagonal -/
+
+theorem path_add {α : Type} [AddCommMonoid α] (f g : Vertex → Vertex → α) (p : Vertex) (r : List Vertex) :
+    path (fun x y => f x y + g x y) p r = path f p r + path g p r := by
+  induction r generalizing p with
+  | nil => simp [path]
+  | cons q r ih => simp only [path, ih]; exact add_add_add_comm _ _ _ _
+
+theorem cyc_add {α : Type} [AddCommMonoid α] (f g : Vertex → Vertex → α) (vs : List Vertex) :
+    cyc (fun x y => f x y + g x y) vs = cyc f vs + cyc g vs := by
+  cases vs with
+  | nil => simp [cyc]
+  | cons p r => exact path_add f g p _
+
+theorem path_reverse {α : Type} [AddCommMonoid α] (f : Vertex → Vertex → α) (p x : Vertex) (r : List Vertex) :
+    path f x (r.reverse ++ [p]) = path (fun a b => f b a) p (r ++ [x]) := by
+  induction r generalizing p with
+  | nil => simp [path]
+  | cons q r ih =>
+    rw [List.reverse_cons, List.append_assoc, List.singleton_append, path_append, ih q]
+    simp only [path, List.cons_append, add_zero]
+    exact add_comm _ _
+
+/-- the cyclic sum over the reversed vertex list is the cyclic sum of the reversed edges -/
+theorem cyc_reverse {α : Type} [AddCommMonoid α] (f : Vertex → Vertex → α) (vs : List Vertex) :
+    cyc f vs.reverse = cyc (fun a b => f b a) vs := by
+  cases vs with
+  | nil => simp [cyc]
+  | cons p r =>
+    have h : (p :: r).reverse = (p :: r.reverse).rotate 1 := by simp [List.rotate_cons_succ]
+    rw [h, cyc_rotate_one]
+    exact path_reverse f p p r
+
+theorem path_even (g : Vertex → Vertex → ℤ) (p : Vertex) (r : List Vertex)
+    (h : ∀ x ∈ p :: r, ∀ y ∈ p :: r, g x y % 2 = 0) : path g p r % 2 = 0 := by
+  induction r generalizing p with
+  | nil => simp [path]
+  | cons q r ih =>
+    have h1 := h p (by simp) q (by simp)
+    have h2 := ih q (fun x hx y hy => h x (List.mem_cons_of_mem _ hx) y (List.mem_cons_of_mem _ hy))
+    simp only [path]; omega
+
+theorem cyc_even (g : Vertex → Vertex → ℤ) (vs : List Vertex)
+    (h : ∀ x ∈ vs, ∀ y ∈ vs, g x y % 2 = 0) : cyc g vs % 2 = 0 := by
+  cases vs with
+  | nil => simp [cyc]
+  | cons p r =>
+    apply path_even
+    intro x hx y hy
+    apply h <;> simp at * <;> tauto
+
+theorem path_zero {α : Type} [AddCommMonoid α] (p : Vertex) (r : List Vertex) :
+    path (fun _ _ => (0:α)) p r = 0 := by
+  induction r generalizing p with
+  | nil => simp [path]
+  | cons q r ih => simp [path, ih]
+
+/-- **flipping the traversal order** of a polygon: for a backend with symmetric distances and antisymmetric areas,
+    and edges whose two directions have crossing counts of equal parity (true of `transitQ`: `transitQ_antisymm`),
+    the raw sum is negated, the parity kept, and the result is that of the original order with `reverse` flipped -/
+theorem reverse_traversal (B : Backend) (A : ℚ) (hA : 0 < A) (rv sg : Bool) (vs : List Vertex)
+    (hs : ∀ p q, (B q p).1 = (B p q).1) (hS : ∀ p q, (B q p).2 = -(B p q).2)
+    (hT : ∀ p ∈ vs, ∀ q ∈ vs, (transit q.2 p.2 + transit p.2 q.2) % 2 = 0) :
+    cyc (fS B) vs.reverse = - cyc (fS B) vs ∧ cyc fT vs.reverse % 2 = cyc fT vs % 2 ∧
+    polygon B A rv sg vs.reverse = polygon B A (!rv) sg vs := by
+  have e1 : cyc (fs B) vs.reverse = cyc (fs B) vs := by
+    rw [cyc_reverse]; congr 1; funext a b; exact hs a b
+  have e2 : cyc (fS B) vs.reverse = - cyc (fS B) vs := by
+    have : cyc (fS B) vs.reverse + cyc (fS B) vs = 0 := by
+      rw [cyc_reverse, ← cyc_add]
+      have : (fun x y => fS B y x + fS B x y) = fun _ _ => (0:ℚ) := by
+        funext x y; simp [fS, hS x y]
+      rw [this]; cases vs <;> simp [cyc, path_zero]
+    linarith
+  have e3 : cyc fT vs.reverse % 2 = cyc fT vs % 2 := by
+    have : (cyc fT vs.reverse + cyc fT vs) % 2 = 0 := by
+      rw [cyc_reverse, ← cyc_add]
+      exact cyc_even _ vs (fun x hx y hy => hT x hx y hy)
+    omega
+  refine ⟨e2, e3, ?_⟩
+  by_cases h : 2 ≤ vs.length
+  · rw [polygon_eq B A (!rv) sg vs h, polygon_eq B A rv sg _ (by rw [List.length_reverse]; exact h)]
+    rw [e1, e2, areaReduce_neg_area _ A _ _ rv sg hA e3, List.length_reverse]
+  · match vs, h with
+    | [], _ => simp [polygon, compute, init]
+    | [v], _ => simp [polygon, compute, init, addPoint]
+    | _ :: _ :: _, h => simp at h
+
+/-- **cutting along a diagonal**: the polygon `a, l₁, b, l₂` is cut into `a, l₁, b` and `b, l₂, a`.  For a backend
+    with antisymmetric areas (and a diagonal whose two directions have crossing counts of equal parity) the two areas
+    add up to the area of the whole, modulo the area `A` of the ellipsoid -/
+theorem cut_additive (B : Backend) (A : ℚ) (rv sg : Bool) (a b : Vertex) (l1 l2 : List Vertex)
+    (hS : (B b a).2 = -(B a b).2) (hT : (transit b.2 a.2 + transit a.2 b.2) % 2 = 0) :
+    ∃ r1 r2 r : ℚ,
+      (polygon B A rv sg (a :: l1 ++ [b])).area = some (some r1) ∧
+      (polygon B A rv sg (b :: l2 ++ [a])).area = some (some r2) ∧
+      (polygon B A rv sg (a :: l1 ++ b :: l2)).area = some (some r) ∧
+      CongA A (r1 + r2) r := by
+  have hc : ∀ {α : Type} [AddCommMonoid α] (f : Vertex → Vertex → α),
+      cyc f (a :: l1 ++ [b]) + cyc f (b :: l2 ++ [a]) = cyc f (a :: l1 ++ b :: l2) + (f b a + f a b) := by
+    intro α _ f
+    have c1 : cyc f (a :: l1 ++ [b]) = path f a (l1 ++ [b]) + f b a := by
+      show path f a (l1 ++ [b] ++ [a]) = _
+      rw [show l1 ++ [b] ++ [a] = l1 ++ b :: [a] by simp, path_append]; simp [path]
+    have c2 : cyc f (b :: l2 ++ [a]) = path f b (l2 ++ [a]) + f a b := by
+      show path f b (l2 ++ [a] ++ [b]) = _
+      rw [show l2 ++ [a] ++ [b] = l2 ++ a :: [b] by simp, path_append]; simp [path]
+    have c3 : cyc f (a :: l1 ++ b :: l2) = path f a (l1 ++ [b]) + path f b (l2 ++ [a]) := by
+      show path f a (l1 ++ b :: l2 ++ [a]) = _
+      rw [show l1 ++ b :: l2 ++ [a] = l1 ++ b :: (l2 ++ [a]) by simp, path_append]
+    rw [c1, c2, c3]; exact add_add_add_comm _ _ _ _
+  have hS' : fS B b a + fS B a b = 0 := by simp [fS, hS]
+  have g1 := polygon_eq B A rv sg (a :: l1 ++ [b]) (by simp)
+  have g2 := polygon_eq B A rv sg (b :: l2 ++ [a]) (by simp)
+  have g3 := polygon_eq B A rv sg (a :: l1 ++ b :: l2) (by simp; omega)
+  refine ⟨_, _, _, by rw [g1], by rw [g2], by rw [g3], ?_⟩
+  refine ((areaReduce_cong _ A _ rv sg).add (areaReduce_cong _ A _ rv sg)).trans
+    (CongA.trans ?_ (areaReduce_cong _ A _ rv sg).symm)
+  rw [← mul_add]
+  apply CongA.mul_sgn
+  have hq := hc (fS B)
+  have hz := hc fT
+  rw [hS', add_zero] at hq
+  obtain ⟨j, hj⟩ : ∃ j, fT b a + fT a b = 2 * j := ⟨(fT b a + fT a b) / 2, by simp only [fT]; omega⟩
+  rw [hj] at hz
+  refine ⟨j, ?_⟩
+  have hz' : ((cyc fT (a :: l1 ++ [b]) : ℤ) : ℚ) + ((cyc fT (b :: l2 ++ [a]) : ℤ) : ℚ)
+      = ((cyc fT (a :: l1 ++ b :: l2) : ℤ) : ℚ) + 2 * j := by exact_mod_cast hz
+  have hz'' := congrArg (· * (A / 2)) hz'
+  beta_reduce at hz''
+  linarith
+
+/-! ### relabelling longitudes by multiples of 360° -/
+
+/-- one edge under a relabelling of its end longitudes by whole turns: the signed difference moves by `ε` turns
+    (`ε ≠ 0` only at a ±180° tie) and the crossing count by the same `ε` -/
+theorem edge_relabel {d n1 n2 d' n1' n2' : ℚ} {k k' j1 j2 : ℤ} (e : Edge d n1 n2 k) (e' : Edge d' n1' n2' k')
+    (h1 : n1' = n1 + 360 * (j1:ℚ)) (h2 : n2' = n2 + 360 * (j2:ℚ)) :
+    ∃ ε : ℤ, d' = d + 360 * (ε:ℚ) ∧ transitQ d' n1' n2' = transitQ d n1 n2 + ε ∧
+      (ε = 0 ∨ (ε = 1 ∧ d = -180 ∧ d' = 180) ∨ (ε = -1 ∧ d = 180 ∧ d' = -180)) := by
+  refine ⟨j2 - j1 + k' - k, ?_, ?_, ?_⟩
+  · have := e.hk; have := e'.hk; push_cast; linarith
+  · rw [transit_eq_floor e, transit_eq_floor e']
+    have hd : d' = d + 360 * ((j2 - j1 + k' - k : ℤ):ℚ) := by have := e.hk; have := e'.hk; push_cast; linarith
+    have a1 : ⌊(n1' + d') / 360⌋ = ⌊(n1 + d) / 360⌋ + (j1 + (j2 - j1 + k' - k)) := by
+      rw [h1, hd, show (n1 + 360 * (j1:ℚ) + (d + 360 * ((j2 - j1 + k' - k : ℤ):ℚ))) / 360
+        = (n1 + d) / 360 + ((j1 + (j2 - j1 + k' - k) : ℤ):ℚ) by push_cast; ring, Int.floor_add_intCast]
+    have a2 : ⌊n1' / 360⌋ = ⌊n1 / 360⌋ + j1 := by
+      rw [h1, show (n1 + 360 * (j1:ℚ)) / 360 = n1 / 360 + (j1:ℚ) by ring, Int.floor_add_intCast]
+    rw [a1, a2]; ring
+  · have hd : d' - d = 360 * ((j2 - j1 + k' - k : ℤ):ℚ) := by have := e.hk; have := e'.hk; push_cast; linarith
+    generalize j2 - j1 + k' - k = ε at hd
+    have b1 : (ε:ℚ) ≤ 1 := by linarith [e.hd.1, e'.hd.2]
+    have b2 : (-1:ℚ) ≤ ε := by linarith [e.hd.2, e'.hd.1]
+    have c1 : ε ≤ 1 := by exact_mod_cast b1
+    have c2 : -1 ≤ ε := by exact_mod_cast b2
+    have : ε = 0 ∨ ε = 1 ∨ ε = -1 := by omega
+    rcases this with rfl | rfl | rfl
+    · exact Or.inl rfl
+    · push_cast at hd
+      exact Or.inr (Or.inl ⟨rfl, by linarith [e.hd.1, e'.hd.2], by linarith [e.hd.1, e'.hd.2]⟩)
+    · push_cast at hd
+      exact Or.inr (Or.inr ⟨rfl, by linarith [e.hd.2, e'.hd.1], by linarith [e.hd.2, e'.hd.1]⟩)
+
+/-- an edge as `PolygonArea` sees it: end latitudes, signed longitude difference, normalised end longitudes -/
+structure REdge where
+  φ1 : ℚ
+  φ2 : ℚ
+  d : ℚ
+  n1 : ℚ
+  n2 : ℚ
+  k : ℤ
+
+def REdge.ok (e : REdge) : Prop := Edge e.d e.n1 e.n2 e.k
+
+/-- same latitudes, end longitudes moved by whole turns -/
+def Relabel (e e' : REdge) : Prop :=
+  e'.φ1 = e.φ1 ∧ e'.φ2 = e.φ2 ∧ (∃ j : ℤ, e'.n1 = e.n1 + 360 * (j:ℚ)) ∧ (∃ j : ℤ, e'.n2 = e.n2 + 360 * (j:ℚ))
+
+/-- the raw area sum and the crossing count of a list of edges, for a backend `S φ₁ φ₂ lon12` -/
+def rawArea (S : ℚ → ℚ → ℚ → ℚ) (es : List REdge) : ℚ := (es.map fun e => S e.φ1 e.φ2 e.d).sum
+def crossings (es : List REdge) : ℤ := (es.map fun e => transitQ e.d e.n1 e.n2).sum
+
+/-- **relabelling invariance of the pair (ΣS12, crossings)**: for a backend that sees the longitudes only through
+    the signed `lon12` and satisfies the tie contract `S(φ₁, φ₂, +180) − S(φ₁, φ₂, −180) = A/2`, replacing any
+    longitudes by themselves plus whole turns leaves `ΣS12 + crossings·A/2` unchanged modulo `A` … -/
+theorem relabel_cong (S : ℚ → ℚ → ℚ → ℚ) (A : ℚ) (tie : ∀ φ1 φ2, S φ1 φ2 180 - S φ1 φ2 (-180) = A / 2)
+    (es es' : List REdge) (h : List.Forall₂ Relabel es es') (hok : ∀ e ∈ es, e.ok) (hok' : ∀ e ∈ es', e.ok) :
+    CongA A (rawArea S es' + crossings es' * (A / 2)) (rawArea S es + crossings es * (A / 2)) := by
+  induction h with
+  | nil => exact CongA.refl _ _
+  | @cons e e' es es' hr _ ih =>
+    obtain ⟨m, hm⟩ := ih (fun x hx => hok x (List.mem_cons_of_mem _ hx)) (fun x hx => hok' x (List.mem_cons_of_mem _ hx))
+    obtain ⟨p1, p2, ⟨j1, q1⟩, ⟨j2, q2⟩⟩ := hr
+    obtain ⟨ε, hd, ht, hε⟩ := edge_relabel (hok e (by simp)) (hok' e' (by simp)) q1 q2
+    have hSS : S e'.φ1 e'.φ2 e'.d = S e.φ1 e.φ2 e.d + ε * (A / 2) := by
+      rw [p1, p2]
+      rcases hε with rfl | ⟨rfl, a, b⟩ | ⟨rfl, a, b⟩
+      · simp at hd; rw [hd]; simp
+      · rw [a, b]; have := tie e.φ1 e.φ2; push_cast; linarith
+      · rw [a, b]; have := tie e.φ1 e.φ2; push_cast; linarith
+    refine ⟨m + ε, ?_⟩
+    simp only [rawArea, crossings, List.map_cons, List.sum_cons] at hm ⊢
+    rw [hSS, ht]; push_cast; linarith
+
+/-- **`area_relabel_invariant`** … so the reduced area is unchanged (neither `ΣS12` nor the crossing parity is
+    invariant on its own when an edge spans exactly 180°: the theorem is about the pair) -/
+theorem area_relabel_invariant (S : ℚ → ℚ → ℚ → ℚ) (A : ℚ) (hA : 0 < A)
+    (tie : ∀ φ1 φ2, S φ1 φ2 180 - S φ1 φ2 (-180) = A / 2)
+    (es es' : List REdge) (h : List.Forall₂ Relabel es es') (hok : ∀ e ∈ es, e.ok) (hok' : ∀ e ∈ es', e.ok)
+    (rv sg : Bool) :
+    areaReduce (rawArea S es') A (crossings es') rv sg = areaReduce (rawArea S es) A (crossings es) rv sg :=
+  areaReduce_eq_of_cong hA sg (CongA.mul_sgn rv (relabel_cong S A tie es es' h hok hok'))
+
+/-- non-vacuity, and the reason the theorem is about the pair: the meridional edge from (0°, 0°) to (10°, 180°)
+    relabelled as ending at −180°: `lon12` flips from +180 to −180, the crossing count from 0 to −1 -/
+example : Relabel ⟨0, 10, 180, 0, 180, 0⟩ ⟨0, 10, -180, 0, -180, 0⟩ ∧
+    REdge.ok ⟨0, 10, 180, 0, 180, 0⟩ ∧ REdge.ok ⟨0, 10, -180, 0, -180, 0⟩ ∧
+    transitQ 180 0 180 = 0 ∧ transitQ (-180) 0 (-180) = -1 := by
+  refine ⟨⟨rfl, rfl, ⟨0, by norm_num⟩, ⟨-1, by norm_num⟩⟩, ⟨by norm_num, by norm_num, by norm_num, by norm_num⟩,
+    ⟨by norm_num, by norm_num, by norm_num, by norm_num⟩, by decide +kernel, by decide +kernel⟩
+
+/-- a backend satisfying the tie contract that is not constant: `S = lon12·A/720 + φ₁φ₂·lon12²…` -/
+example (A : ℚ) : ∀ φ1 φ2 : ℚ, (fun φ1 φ2 d : ℚ => d * (A / 720) + φ1 * φ2 * d ^ 2) φ1 φ2 180
+      - (fun φ1 φ2 d : ℚ => d * (A / 720) + φ1 * φ2 * d ^ 2) φ1 φ2 (-180) = A / 2 := by
+  intro φ1 φ2; ring
+
+def REdge.tup (e : REdge) : ℚ × ℚ × ℚ × ℤ := (e.d, e.n1, e.n2, e.k)
+
+/-- the edges of a closed polygon: each ends (normalised longitude) where the next begins -/
+def Cyclic (es : List REdge) : Prop := es.map (·.n2) = (es.map (·.n1)).rotate 1
+
+/-- around a closed polygon the crossings count the whole turns swept: `360 · Σ transit = Σ lon12` -/
+theorem crossings_swept (es : List REdge) (hc : Cyclic es) (hok : ∀ e ∈ es, e.ok) :
+    360 * (crossings es : ℚ) = (es.map (·.d)).sum := by
+  have hw := transit_winding (es.map REdge.tup)
+    ⟨by intro t ht; obtain ⟨e, he, rfl⟩ := List.mem_map.mp ht; exact hok e he,
+     closed_of_rotate _ (by simpa [List.map_map, Function.comp_def, REdge.tup, Cyclic] using hc)⟩
+  have hcr : crossings es = (es.map (·.k)).sum := by
+    simpa [crossings, List.map_map, Function.comp_def, REdge.tup] using hw
+  have hsum : (es.map (·.n1)).sum + (es.map (·.d)).sum = (es.map (·.n2)).sum + 360 * ((es.map (·.k)).sum : ℤ) := by
+    clear hw hcr hc
+    induction es with
+    | nil => simp
+    | cons e es ih =>
+      have := ih (fun x hx => hok x (List.mem_cons_of_mem _ hx))
+      have hk := (hok e (by simp)).hk
+      simp only [List.map_cons, List.sum_cons]; push_cast at this ⊢; linarith
+  have hn : (es.map (·.n2)).sum = (es.map (·.n1)).sum := by
+    rw [hc]; exact cyclic_sum_rotate _ 1
+  rw [hcr]; linarith
+
+/-- **shift invariance**: two closed polygons with the same latitudes and the same signed longitude differences
+    (e.g. all longitudes shifted by a constant that leaves every `AngDiff` unchanged) have the same reduced area,
+    wherever the prime meridian falls -/
+theorem area_shift_invariant (S : ℚ → ℚ → ℚ → ℚ) (A : ℚ) (es es' : List REdge)
+    (h : List.Forall₂ (fun e e' : REdge => e'.φ1 = e.φ1 ∧ e'.φ2 = e.φ2 ∧ e'.d = e.d) es es')
+    (hc : Cyclic es) (hc' : Cyclic es') (hok : ∀ e ∈ es, e.ok) (hok' : ∀ e ∈ es', e.ok) (rv sg : Bool) :
+    areaReduce (rawArea S es') A (crossings es') rv sg = areaReduce (rawArea S es) A (crossings es) rv sg := by
+  have h1 : rawArea S es' = rawArea S es ∧ (es'.map (·.d)).sum = (es.map (·.d)).sum := by
+    clear hc hc' hok hok'
+    induction h with
+    | nil => exact ⟨rfl, rfl⟩
+    | cons hr _ ih =>
+      obtain ⟨a, b, c⟩ := hr
+      simp only [rawArea, List.map_cons, List.sum_cons] at ih ⊢
+      rw [a, b, c, ih.1, ih.2]; exact ⟨rfl, rfl⟩
+  have h2 : crossings es' = crossings es := by
+    have a := crossings_swept es hc hok
+    have b := crossings_swept es' hc' hok'
+    rw [h1.2] at b
+    have : (crossings es' : ℚ) = crossings es := by linarith
+    exact_mod_cast this
+  rw [h1.1, h2]
+
+/-- non-vacuity: the triangle with longitudes −10, 100, 170 and the same triangle shifted by +30
+    (170 + 30 = 200 is normalised to −160): all `lon12` are unchanged, both are closed chains -/
+example : Cyclic [⟨0, 1, 110, -10, 100, 0⟩, ⟨1, 2, 70, 100, 170, 0⟩, ⟨2, 0, 180, 170, -10, 1⟩] ∧
+    Cyclic [⟨0, 1, 110, 20, 130, 0⟩, ⟨1, 2, 70, 130, -160, 1⟩, ⟨2, 0, 180, -160, 20, 0⟩] ∧
+    (∀ e ∈ [(⟨0, 1, 110, -10, 100, 0⟩ : REdge), ⟨1, 2, 70, 100, 170, 0⟩, ⟨2, 0, 180, 170, -10, 1⟩], e.ok) ∧
+    (∀ e ∈ [(⟨0, 1, 110, 20, 130, 0⟩ : REdge), ⟨1, 2, 70, 130, -160, 1⟩, ⟨2, 0, 180, -160, 20, 0⟩], e.ok) := by
+  refine ⟨by simp [Cyclic], by simp [Cyclic], ?_, ?_⟩ <;>
+  · intro e he
+    simp only [List.mem_cons, List.not_mem_nil, or_false] at he
+    rcases he with rfl | rfl | rfl <;> exact ⟨by norm_num, by norm_num, by norm_num, by norm_num⟩
+
+/-! ### non-vacuity of the hypotheses of `reverse_traversal` / `cut_additive` -/
+
+/-- a toy backend with symmetric distances and antisymmetric areas -/
+def toyB : Backend := fun p q => ((toRat p.2 - toRat q.2) ^ 2, toRat q.2 - toRat p.2)
+
+def vA : Vertex := (F64.ofInt 0, F64.ofInt (-10))
+def vB : Vertex := (F64.ofInt 40, F64.ofInt 100)
+def vC : Vertex := (F64.ofInt 10, F64.ofInt 170)
+def vD : Vertex := (F64.ofInt (-20), F64.ofInt (-120))
+
+example : (∀ p q, (toyB q p).1 = (toyB p q).1) ∧ (∀ p q, (toyB q p).2 = -(toyB p q).2) :=
+  ⟨fun p q => by simp only [toyB]; ring, fun p q => by simp only [toyB]; ring⟩
+/-- every pair of these vertices (so every edge and every diagonal) has crossing counts of equal parity in its two
+    directions; the polygon goes once round the pole (one net crossing of the prime meridian) -/
+example : ∀ p ∈ [vA, vB, vC, vD], ∀ q ∈ [vA, vB, vC, vD], (transit q.2 p.2 + transit p.2 q.2) % 2 = 0 := by
+  decide +kernel
+example : cyc fT [vA, vB, vC, vD] = 1 := by decide +kernel
+
 end GeoVerif.Props.C08
